@@ -1264,6 +1264,7 @@ def parse_specs(paths):
                 if sect == 'body':
                     h['body'].append(raw); continue
                 if st.startswith('@props '): h['props'] = st.split()[1:]; continue
+                if st.startswith('@also '): h['also'] = st.split()[1:]; h['props'] += [x for x in h['also'] if x not in h['props']]; continue
                 if st.startswith('@enforce '): h['enforce'] = st.split()[1]; continue
                 if st.startswith('@replace '): h['replace'] += st.split()[1:]; continue
                 if st.startswith('@defs '): h['defs'] += st.split()[1:]; continue
